@@ -43,6 +43,11 @@ pub struct TransferSpec {
     pub token_len: usize,
     /// the token length changes from request to request within the transfer
     pub token_vary: bool,
+    /// the client sets the M bit in the Block2 options of its requests (it
+    /// has no function there; receivers ignore it)
+    pub b2_more: bool,
+    /// the client walks away after this many exchanges
+    pub stop_after: Option<u32>,
     pub extra: Vec<(u16, Vec<u8>)>,
     pub kind: TKind,
     pub probe: Probe,
@@ -391,6 +396,9 @@ impl Lane {
         if self.cur().exchanges >= MAX_EXCHANGES {
             return self.finish(TStatus::Failed("too-many-exchanges"));
         }
+        if t.stop_after.map_or(false, |k| self.cur().exchanges >= k) {
+            return self.finish(TStatus::Abandoned);
+        }
         let tl = if t.token_vary {
             let l = [t.token_len, 0, 8, 1, 2, 7, 3][self.exch as usize % 7];
             if t.con {
@@ -401,6 +409,7 @@ impl Lane {
         } else {
             t.token_len
         };
+        let b2 = if t.b2_more { b2.map(|(n, _, sx)| (n, true, sx)) } else { b2 };
         let (mid, token) = ids.fresh(tl);
         let mtype = if t.con { MessageType::Confirmable } else { MessageType::NonConfirmable };
         let bytes = build_request(t.method, mtype, mid, &token, &t.path, &t.extra, b1, b2, payload);
